@@ -185,6 +185,11 @@ func ErrorObject(t *rapid.T, label string) jsonapi.Error {
 
 	e.ID, e.Code, e.Status, e.Title, e.Detail = str("id"), str("code"), str("status"), str("title"), str("detail")
 
+	// an HTTP status as a status usually is
+	if rapid.IntRange(0, 2).Draw(t, label+"-httpstatus") == 0 {
+		e.Status = rapid.SampledFrom([]string{"404", "503", "200", "400", "999", "0404"}).Draw(t, label+"-httpstatus-value")
+	}
+
 	switch rapid.IntRange(0, 2).Draw(t, label+"-links") {
 	case 1:
 		e.Links = map[string]string{}
